@@ -647,6 +647,10 @@ Partially_Reduced_Product<D1, D2, R>
 ::expand_space_dimension(Variable var, dimension_type m) {
   d1.expand_space_dimension(var, m);
   d2.expand_space_dimension(var, m);
+  // The copies of `var' are related to each other only through the
+  // other dimensions: a relation that is implied by one component may
+  // now be expressible in the other one.
+  clear_reduced_flag();
 }
 
 template <typename D1, typename D2, typename R>
